@@ -62,10 +62,22 @@ NPool == Len(Pool)
 
 QSchema16 == SchemaOf("q", <<Obj("q", "QS", TStruct(<<Field("v", TString, TRUE), Field("k", TRef("q", "KQ"), TRUE)>>)),
                              Obj("q", "KQ", TConst("string", VStr("kq"))),
-                             Obj("q", "QEn", EnT)>>)
+                             Obj("q", "QEn", EnT),
+                             Obj("q", "Target", TStruct(<<Field("t", TString, TRUE)>>)),
+                             Obj("q", "Mode", TString)>>)
+\* CaseFields: fields whose names differ only in letter case are distinct fields, each covered exactly once
 Support16 == <<Obj("p", "Other", OtherT), Obj("p", "En", EnT), Obj("p", "K", TConst("string", VStr("kv"))),
-               Obj("p", "KAlias", TRef("p", "K"))>>
-Variants == 1..5
+               Obj("p", "KAlias", TRef("p", "K")),
+               Obj("p", "CaseFields", TStruct(<<Field("url", TString, TRUE), Field("URL", WithDef(TString, VStr("u")), FALSE),
+                                                Field("id", TScalar("int64"), TRUE), Field("Id", TRef("p", "Other"), FALSE),
+                                                Field("ID", TArray(TString), FALSE)>>))>>
+\* alias chains whose SECOND hop leaves the package, next to same-named objects of another kind in the starting package
+CrossPkg16 == <<Obj("p", "Datasource", TRef("p", "TargetAlias")), Obj("p", "TargetAlias", TRef("q", "Target")), Obj("p", "Target", TString),
+                Obj("p", "DisplayMode", TRef("p", "ModeAlias")), Obj("p", "ModeAlias", TRef("q", "Mode")),
+                Obj("p", "Mode", TStruct(<<Field("m", TString, TRUE)>>)),
+                Obj("p", "KQ", TString),
+                Obj("p", "Holder", TStruct(<<Field("viaAlias", TRef("p", "KQAlias"), TRUE)>>)), Obj("p", "KQAlias", TRef("q", "KQ"))>>
+Variants == 1..6
 Main(fs) == Obj("p", "Main", TStruct([i \in DOMAIN fs |-> Pool[fs[i]]]))
 PObjects(fs, v) ==
   CASE v = 1 -> <<Main(fs)>> \o Support16
@@ -74,6 +86,7 @@ PObjects(fs, v) ==
     [] v = 3 -> Support16 \o <<Obj("p", "Sc", TString), Obj("p", "Arr", TArray(TRef("p", "Main"))), Obj("p", "Mp", TMap(TString, TString)),
                                Obj("p", "Dj", TDisj(<<TRef("p", "Main"), TRef("p", "Other")>>, "", <<>>)),
                                Obj("p", "AliasArr", TRef("p", "Arr")), Main(fs)>>
+    [] v = 6 -> <<Main(fs)>> \o Support16 \o CrossPkg16
     [] v = 4 -> <<Main(fs)>> \o Support16           \* package q is not loaded: references into it do not resolve
     [] OTHER -> <<Main(fs)>> \o Support16 \o <<Obj("p", "AliasGone", TRef("q", "QS"))>>   \* alias of an object that is not loaded
 S16(c) == IF c.variant \in {4, 5} THEN <<SchemaOf("p", PObjects(c.fields, c.variant))>>
@@ -108,9 +121,16 @@ S17 == <<SchemaOf("p", <<Obj("p", "Root", RootT), Obj("p", "Inner", InnerT), Obj
             EXCEPT !.meta = [kind |-> "composable", variant |-> "panelcfg", id |-> "qid"]]>>
 \* the same plus a struct whose only field is a constant: its builder has no option
 S17b == <<[S17[1] EXCEPT !.objects = Append(@, Obj("p", "Marker", TStruct(<<Field("kind", TConst("string", VStr("m")), TRUE)>>)))], S17[2]>>
-CONSTANTS WithMarker,        \* C17: add an object whose builder has no option
+\* the same plus a chain of nested structs: assignment paths of four segments with sibling leaves
+S17c == <<[S17[1] EXCEPT !.objects = [@ EXCEPT ![1] = Obj("p", "Root", [RootT EXCEPT !.fields = Append(@, Field("deep", TRef("p", "L1"), TRUE))])]
+                                     \o <<Obj("p", "L1", TStruct(<<Field("l2", TRef("p", "L2"), TRUE), Field("n", TString, FALSE)>>)),
+                                          Obj("p", "L2", TStruct(<<Field("l3", TRef("p", "L3"), TRUE)>>)),
+                                          Obj("p", "L3", TStruct(<<Field("a", TString, TRUE), Field("b", TScalar("bool"), FALSE), Field("c", TArray(TString), FALSE)>>))>>],
+          S17[2]>>
+CONSTANTS Chains,            \* C17: the nested schema set and the alphabet of path-lengthening rules only
+          WithMarker,        \* C17: add an object whose builder has no option
           FirstFromR2        \* C17: take the first rule from the reduced alphabet too (simulation of long histories)
-SS == IF WithMarker THEN S17b ELSE S17
+SS == IF WithMarker THEN S17b ELSE IF Chains THEN S17c ELSE S17
 B0 == Derive(SS)
 
 BO(p, n) == [k |-> "by_object", pkg |-> p, name |-> n]
@@ -200,7 +220,7 @@ Products == <<"dup", "renamed", "extra", "tag", "label", "item", "x", "y", "on",
 SProd == ON("Root", Products)
 SCopy == OB("Copy", <<"tags", "labels", "inner", "name", "flag">>)
 R(o)  == ON("Root", <<o>>)
-R2 == <<
+R2Full == <<
   BR("omit", BO("p", "Inner")),
   BR("rename", BO("p", "Root")) @@ [as |-> "Renamed"],
   BR("duplicate", BO("p", "Root")) @@ [as |-> "Copy", exclude |-> <<>>],
@@ -226,6 +246,12 @@ R2 == <<
   OAdd(R("tags"), AddAsg1), OAdd(R("flag"), AddAsg1),
   OCom(R("tags"))
 >>
+\* path-lengthening rules over the nested schema set: three of them chained give four-segment paths with sibling leaves
+ChainProd == ON("Root", <<"l2", "l3", "n", "a", "b", "c">>)
+Merge(src, under) == BR("merge_into", BN("Root")) @@ [source |-> src, under |-> under, exclude |-> <<>>, rename |-> <<>>]
+RChain == <<OSfo(R("deep"), <<>>), OSfo(ChainProd, <<>>), OSfa(ChainProd, <<>>), OSfo(ON("L1", <<"l2">>), <<>>),
+            Merge("L1", <<"deep">>), Merge("L2", <<"deep", "l2">>), Merge("L3", <<"deep", "l2", "l3">>)>>
+R2 == IF Chains THEN RChain ELSE R2Full
 R2All == {R2[i] @@ [lang |-> "all"] : i \in DOMAIN R2}
 
 LangAfter(last, r) == IF last.lang = "go" THEN "go" ELSE IF last.kind = "o" /\ r.kind = "b" THEN "go" ELSE "all"
